@@ -14,7 +14,12 @@ RULE = ("(a) neighbor at scale: score() on 200-2000 rows quick / 2000-65536 thor
         "(Provenance(units=n, candidates=C, data=[[unit, candidate], ...]), 6-1500 rows, 2-300 units, units owning rows under several candidate values or none), in the "
         "default world (every unit takes candidate 1) and in explicit worlds passed to score() as a key list or an index array: the full training set of a world is the "
         "rows whose candidate is the world's candidate of their unit; right-hand side = mean utility of the nearest such row's label minus the null utility, from an "
-        "independent argmin over exactly those rows. Non-trivial = >= 2 classes present and the right-hand side non-zero; "
+        "independent argmin over exactly those rows; (e) neighbor (K=1) on EXPLICIT single-literal groupings in which some units own NO training row "
+        "(Provenance(units=n, data=[unit of row 0, unit of row 1, ...]) with n larger than the number of units that occur, or a provenance over n units filtered with "
+        "provenance[boolean mask] so that all rows of some units are dropped while the unit set stays): the empty units stand in TRAILING (the last k units), leading, "
+        "middle or mixed positions, 3-300 units quick / up to 400 units thorough, 4-1500 rows quick / up to 20000 rows thorough, rows stored sorted by unit or shuffled; "
+        "one score per unit (empty ones included) and the sum must equal the mean utility of the nearest row's label (independent argmin over ALL rows) minus the null "
+        "utility, compared with the by-definition Fraction right-hand side (no model request). Non-trivial = >= 2 classes present and the right-hand side non-zero; "
         "distinct = distinct generated datasets.")
 
 
@@ -129,6 +134,74 @@ def multicand_efficiency(ctx, I, sizes):
                          case, impl=float(total), spec=str(exact))
 
 
+def empty_units_efficiency(ctx, I, sizes):
+    """(e) explicit single-literal groupings with units that own no training row (trailing / leading / middle / mixed positions): such a unit is in no
+    coalition's training set, so the full training set is ALL rows and the scores (one per unit, the empty ones included) sum to its utility minus null"""
+    rng = ctx.rng
+    from sklearn.neighbors import KNeighborsClassifier
+    from props import datasets as dsm
+    for k_case, (n_units, n_rows, m) in enumerate(sizes):
+        c = rng.randint(2, 4)
+        where = ["trailing", "leading", "middle", "mixed", "trailing"][k_case % 5] if rng.random() < 0.7 else None
+        groups, empties, where = dsm.rand_groups_empty(rng, n_rows, n_units, where)
+        form = rng.choice(["explicit", "explicit", "filtered"])
+        nprng = np.random.RandomState(rng.randrange(2 ** 31))
+        y = nprng.randint(0, c, n_rows)
+        first = nprng.permutation(n_rows)[:c]
+        y[first[:min(c, n_rows)]] = np.arange(min(c, n_rows))
+        classes = sorted(set(y.tolist()))
+        yv = np.array([rng.choice(classes) for _ in range(m)])
+        absent = len(classes) > 1 and rng.random() < 0.4
+        if absent:
+            gone = rng.choice(classes)
+            yv = np.array([cl if cl != gone else rng.choice([x for x in classes if x != gone]) for cl in yv.tolist()])     # null utility 0
+        small = n_rows <= 40
+        if small and rng.random() < 0.5:
+            X = np.array([[float(v)] for v in rng.sample(range(0, 8 * n_rows), n_rows)])          # integer coordinates (ties between rows possible)
+            Xv = np.array([[float(rng.randrange(0, 8 * n_rows)) + rng.choice([0.0, 0.25, 0.5])] for _ in range(m)])
+            D = np.abs(X - Xv.T)
+        else:
+            X = nprng.rand(n_rows, 3)
+            Xv = nprng.rand(m, 3)
+            D = np.sqrt(((X[:, None, :] - Xv[None, :, :]) ** 2).sum(axis=2))
+        case = dict(part="empty-units", nUnits=n_units, groups=(groups if small else groups[:40]), empty_units=(empties if small else empties[:40]), where=where,
+                    form=form, n_rows=n_rows, m=m, rng="np.RandomState from VERIF_SEED")
+        if small:
+            case.update(y_train=y.tolist(), y_val=yv.tolist(), dist=D.tolist())
+        util = I["utility"].SklearnModelAccuracy(KNeighborsClassifier(n_neighbors=1))
+        Xv_idx = np.hstack([np.arange(m, dtype=float).reshape(-1, 1), Xv])
+        try:
+            prov = dsm.empty_units_prov(I, rng, groups, n_units, form)
+            imp = I["imp"].ShapleyImportance(method="neighbor", utility=util, nn_k=1,
+                                             nn_distance=lambda A, B, D=D: D[:, np.asarray(B)[:, 0].astype(int)].copy())
+            scores = np.asarray(imp.fit(X, y, provenance=prov).score(Xv_idx, yv), dtype=float)
+        except Exception as e:  # noqa
+            ctx.mismatch("score() raised on an explicit grouping with units that own no row", case, impl=exc_name(e) + repr(e))
+            continue
+        # right-hand side, independently: every row is in the full training set; a tie between the nearest rows matters only if their labels differ
+        null = min(Fraction(int(np.sum(yv == cl)), m) for cl in classes)
+        hits, ambiguous = 0, False
+        for j in range(m):
+            col = D[:, j]
+            near = np.flatnonzero(col == col.min())
+            labs = set(y[near].tolist())
+            if len(labs) > 1:
+                ambiguous = True            # (the property does not say which of two equally near rows with different labels is THE nearest one)
+                break
+            hits += int(labs.pop() == yv[j])
+        if ambiguous:
+            continue
+        exact = Fraction(hits, m) - null
+        total = Fraction(float(np.sum(scores)))
+        ctx.case(("empty-units", n_units, n_rows, m, hits, where, form, str(groups[:30])), nontrivial=(exact != 0 and len(classes) >= 2),
+                 sample=dict(case, exact=str(exact), got=float(total)), part="neighbor-empty-units", empty_units_at=where, empty_form=form,
+                 last_unit_empty=((n_units - 1) in empties), class_absent_from_validation=absent)
+        ctx.maxi(rows=n_rows, units=n_units)
+        if len(scores) != n_units or not np.all(np.isfinite(scores)) or abs(total - exact) > Fraction(1, 10 ** 9) * 2:
+            ctx.mismatch("neighbor scores on an explicit grouping with units that own no row do not sum to full-data utility minus null utility",
+                         dict(case, n_scores=int(len(scores))), impl=float(total), spec=str(exact))
+
+
 def default_distance_offset(ctx, I, n_cases):
     """the DEFAULT nn_distance on un-centred integer-valued features (timestamps ~1.7e9 with gaps of a few units): exact nearest rows by
     integer arithmetic; the scores must still sum to full-data utility minus null utility"""
@@ -231,6 +304,11 @@ def run(ctx):
     default_distance_offset(ctx, I, 4 if q else 30)
     mc_sizes = [(2, 3), (3, 4), (4, 5), (5, 6), (6, 8), (8, 10), (12, 10), (25, 15), (60, 20), (150, 20)] + ([] if q else [(rng_n, 30) for rng_n in (3, 5, 7, 40, 100, 200, 300)] * 4)
     multicand_efficiency(ctx, I, mc_sizes)
+    eu_sizes = [(3, 4, 3), (4, 6, 4), (7, 8, 7), (5, 8, 5), (6, 10, 6), (8, 14, 8), (3, 5, 4), (5, 6, 6), (9, 12, 5), (6, 9, 8),
+                (12, 30, 10), (30, 120, 15), (60, 300, 20), (100, 500, 20), (300, 1500, 20)]
+    if not q:
+        eu_sizes = eu_sizes * 6 + [(u, r, 40) for u, r in ((40, 2000), (150, 2000), (400, 5000), (400, 20000), (250, 10000))] * 2
+    empty_units_efficiency(ctx, I, eu_sizes)
     small_games(ctx, I, 40 if q else 400, 800 if q else 3600)
     return ctx.finish("proof", "C06_neighbor(_point), C06_brute, C04_telescope: in exact arithmetic the modelled scores of each method sum to v(all) - v(none) at every size. "
                       "Floating-point accuracy: C13_round_kernel bounds every neighbor score's rounding error by ((1+2^-53)^(n+m+3)-1)*A_u under the standard model of binary64 arithmetic, at every size; the sum itself is measured here against exact integer right-hand sides on a size ladder.", RULE)
